@@ -115,6 +115,8 @@ func applyServiceExtends(ctx context.Context, name string, services map[string]a
 	}
 
 	if base == nil {
+		// a base without content: nothing to inherit, and the reference is resolved
+		delete(service, "extends")
 		return service, nil
 	}
 	source := deepClone(base).(map[string]any)
